@@ -24,6 +24,15 @@ for pid, text, ref in [
 ]:
     CHECKS[pid] = dict(engine="RMC", category="model_checking", technique=X2T, text=text, design=ref, note=RMC_NOTE)
 
+X1T = CHECKS["C04"]["technique"]
+CHECKS["C02"] = dict(engine="RMC", category="model_checking", technique=X1T+"; plus exhaustive enumeration of all labelled task digraphs up to the size bound and explicit-state BFS over surrounding histories",
+  text="Every labelled digraph on up to 3 (thorough: 4) tasks: cyclic ones must run nothing, end canceled with an error and leave neighbours alone; every DAG is run under every completion order and every schedule up to the bound with the run-once / dependencies-first monitor; the reported order is checked for every permutation of the task list and fed to the upstream cycle detector; the history BFS of C01 carries the same monitor.", design="3/C02", note=RMC_NOTE)
+CHECKS["C08"] = dict(engine="RMC", category="model_checking", technique=X1T+"; exhaustive product of task DAGs x allow_failure subsets x fail-fast setting x outcome assignments x completion orders",
+  text="For every DAG on up to 3 (thorough: 4) tasks, every allow_failure subset and both fail-fast settings, every assignment of success/failure and every completion order and schedule up to the bound is executed; the verdict monitor checks the six clauses of the statement on every execution.", design="3/C08", note=RMC_NOTE)
+CHECKS["C13"] = dict(engine="RMC", category="model_checking", technique="stateless model checking in a race-detector build: exhaustive DFS over interleavings (preemption-bounded) with the Go race detector's happens-before analysis evaluated on every execution; scheduler hand-offs are invisible to the detector",
+  text="All pairs and chosen triples of exported operations run against a finished, a running and a waiting job, a pending start timer and the persist loop; on every explored interleaving the race detector must stay silent about production code and structural invariants of the job indexes must hold at every lock release.", design="3/C13",
+  note=RMC_NOTE+" The race detector only judges accesses that the scenarios perform. Hand-offs of the controlled scheduler are spins in //go:norace code; harness and shim packages are compiled without race instrumentation; reports during teardown of an execution are discarded.")
+
 PLANNED = {}
 props = [json.loads(l) for l in open('/verif/properties.jsonl')]
 hooks = subprocess.run(['git','-C','/repo','log','--format=%h %s','--grep=^verif hook'],capture_output=True,text=True).stdout.strip().splitlines()
